@@ -41,6 +41,7 @@ inductive RData where
   | cname (n : Name)
   | soa (minimum : Nat)
   | txt (tag : Nat)
+  | srv (target : Name)
   deriving DecidableEq, Repr, Inhabited
 
 def T_A : Nat := 1
@@ -49,6 +50,7 @@ def T_CNAME : Nat := 5
 def T_SOA : Nat := 6
 def T_TXT : Nat := 16
 def T_AAAA : Nat := 28
+def T_SRV : Nat := 33
 def T_DS : Nat := 43
 def T_ANY : Nat := 255
 
@@ -59,6 +61,7 @@ def RData.rtype : RData → Nat
   | .cname _ => T_CNAME
   | .soa _ => T_SOA
   | .txt _ => T_TXT
+  | .srv _ => T_SRV
 
 /-- `RData::ip_addr` -/
 def RData.ip? : RData → Option Ip
@@ -88,6 +91,10 @@ structure Response where
   answers : List Record
   authorities : List Record
   additionals : List Record
+  /-- TC bit as the simulated server sets it: 0 never, 1 over UDP only, 2 over stream transports as
+  well.  Not read by the model: `PoolState::try_send` repeats a truncated query over TCP, which
+  for `1` yields this very response; `2` has no model side (class predicate `truncatesAlways`). -/
+  tc : Nat := 0
   deriving DecidableEq, Repr, Inhabited
 
 /-- `Message::all_sections` -/
@@ -636,6 +643,10 @@ def negativeWithDeniedAddress (f : Acs) (q : Query) (r : Response) : Bool :=
    | _ => false) &&
     (r.authorities ++ r.additionals).any fun x => !addrAllowed f x
 
+/-- `C19.TruncatedStreamAnswerRetriedUnbounded`: the server sets TC on its answer over stream
+transports too — `PoolState::try_send` then asks it again and again until its wall-clock deadline. -/
+def truncatesAlways (r : Response) : Bool := r.tc == 2
+
 /-! ## stub resolver alias chasing (`CachingClient::inner_lookup`, `DepthTracker`) -/
 
 /-- `DepthTracker::MAX_QUERY_DEPTH` (tied to the source by `Proofs/TiesC19.lean`) -/
@@ -649,8 +660,9 @@ whether CNAME records of earlier hops have been accumulated (`preserved_records`
 inductive StubStep where
   /-- `Records::Exists` -/
   | found
-  /-- `Records::CnameChain`: ask for `target` next -/
-  | alias (target : Name)
+  /-- `Records::CnameChain`: ask for `target` next; `cnames` = the response carried CNAME records
+  (they are what `preserve_intermediates` accumulates — an SRV redirection leaves nothing) -/
+  | alias (target : Name) (cnames : Bool)
   /-- `NoRecordsFound` / upstream error -/
   | nothing
 
@@ -660,12 +672,14 @@ def foldCnames (search : Name) (was : Bool) : List Record → Name × Bool
   | r :: rs =>
     match r.data with
     | .cname t => if search.eq r.name then foldCnames t true rs else foldCnames search was rs
+    | .srv t => foldCnames t true rs
     | _ => foldCnames search was rs
 
 /-- the decision at the end of `handle_noerror` -/
-def stubDecide (found was preserved : Bool) (depth : Nat) (search : Name) : StubStep :=
+def stubDecide (found was preserved : Bool) (depth : Nat) (search : Name) (cnames : Bool) :
+    StubStep :=
   if found && (!was || !preserved) then .found
-  else if was && !depthExhausted depth then .alias search
+  else if was && !depthExhausted depth then .alias search cnames
   else .nothing
 
 def stubClassify (q : Query) (preserved : Bool) (depth : Nat) (up : Except Err Response) : StubStep :=
@@ -680,22 +694,24 @@ def stubClassify (q : Query) (preserved : Bool) (depth : Nat) (up : Except Err R
         else foldCnames q.name false r.answers
       let found := r.all.any fun x =>
         (q.qtype == T_ANY || x.rtype == q.qtype) && (sw.1.eq x.name || q.name.eq x.name)
-      stubDecide found sw.2 preserved depth sw.1
+      stubDecide found sw.2 preserved depth sw.1 (r.all.any fun x => x.rtype == T_CNAME)
 
 /-- `inner_lookup` without the cache: returns (answered?, number of upstream queries).  The
 recursion is on the distance of the `DepthTracker` to `MAX_QUERY_DEPTH`. -/
-def stubLookup (up : Query → Except Err Response) : Nat → Query → Nat → Bool → Bool × Nat
+def stubLookup (up : Query → Except Err Response) (pi : Bool) :
+    Nat → Query → Nat → Bool → Bool × Nat
   | 0, _, _, _ => (false, 0)
   | f + 1, q, depth, preserved =>
     match stubClassify q preserved depth (up q) with
     | .found => (true, 1)
     | .nothing => (false, 1)
-    | .alias target =>
-      let r := stubLookup up f ⟨target, q.qtype⟩ (depth + 1) true
+    | .alias target cnames =>
+      -- with `preserve_intermediates` the CNAME records of this hop are carried along
+      let r := stubLookup up pi f ⟨target, q.qtype⟩ (depth + 1) (preserved || (pi && cnames))
       (r.1, r.2 + 1)
 
-/-- `CachingClient::lookup` -/
-def stubResolve (up : Query → Except Err Response) (q : Query) : Bool × Nat :=
-  stubLookup up MAX_QUERY_DEPTH q 0 false
+/-- `CachingClient::lookup`; `pi` = `ResolverOpts::preserve_intermediates` -/
+def stubResolve (up : Query → Except Err Response) (q : Query) (pi : Bool := true) : Bool × Nat :=
+  stubLookup up pi MAX_QUERY_DEPTH q 0 false
 
 end HickoryVerif.Recursor
